@@ -169,7 +169,7 @@ def scripts(tier, seed, scale=1):
             else:
                 nm = r.choice(pool)
                 ops.append("t alias %s" % hx(nm + r.choice(["", ":s", " : s", ":"])))
-            if r.random() < 0.02:
+            if r.random() < (0.02 if n <= 400 else 0.004):
                 ops.append("t sweep")
         ops.append("t sweep")
         out.append(S("rnd:%d" % h, ops))
